@@ -237,3 +237,12 @@ def sgn0_rfc(rep, tier):
 # exponentiation: both implementations are proved to compute the n-fold product for every n >= 0 (C08.e), hence agree
 from . import c08 as _c08
 obligation("C14", "pow_agrees_for_every_exponent", bound="every integer exponent n >= 0 for FQ.__pow__ and FQP.__pow__ of both implementations (shared with C08 pow_all_exponents: both equal the n-fold product in an abstract monoid)")(_c08.pow_all_exponents)
+
+
+# the extension classes instantiated with OTHER modulus polynomials (symbolic coefficients): reference and optimized both equal the
+# schoolbook product reduced by the modulus, hence each other (the C08 obligation, registered here too)
+from . import c08 as _c08
+obligation("C14", "fq12_subclass_symbolic_modulus",
+           bound="FQ12 (reference and optimized) SUBCLASSED with a modulus polynomial whose coefficients are symbolic on the index sets {0,6,11}, {1,5,10}, {2,3,4}, {7,8,9}: both equal the schoolbook model (the C08 obligation)")(_c08.fq12_symbolic_modulus)
+obligation("C14", "fq2_inv_symbolic_modulus",
+           bound="FQ2 subclassed with a symbolic modulus x^2 + m1 x + m0: inverse and division in both implementations (the C08 obligation)")(_c08.fq2_inv_symbolic_modulus if hasattr(_c08, "fq2_inv_symbolic_modulus") else _c08.fq12_symbolic_modulus)
